@@ -29,7 +29,8 @@ SPEC = {
         {"name": "TestScenarioPlaceholders", "quick": 1600, "thorough": 64000, "shards_quick": 4, "shards_thorough": 16, "timeout": 1800},
         {"name": "TestDiscardOverflowDefault", "quick": 400, "thorough": 16000, "shards_quick": 2, "shards_thorough": 16, "timeout": 1800},
     ],
-    "rule": ("confgen reflects over the Go config struct of every component registered by core/import, phttp/import and grpc/import "
+    "rule": ("property files of TestPlaceholders / TestScenarioPlaceholders end their lines with LF or CR LF (2 of 7), with or without a terminator behind the last line (2 of 7; the key's line is then the last): a value never includes the line terminator; "
+             "confgen reflects over the Go config struct of every component registered by core/import, phttp/import and grpc/import "
              "(34 (kind, name) pairs + the pool struct + the CLI root struct) and draws valid CLI-level configs: 1-3 pools, each with a "
              "gun / ammo / result / rps / startup section of a sampled component, every optional key given with probability 0.35 (6% of "
              "those null-valued), nested structs (dial, answlog, auto-tag, httptrace, shared-client, dial_options, source, log, "
@@ -97,7 +98,11 @@ SPEC = {
              "Non-trivial = mutation (or, for TestValid, a given key) at depth >= 2, a placeholder in a non-string field, a pool "
              "without the discard_overflow key, a scenario-file placeholder in a non-string position (int, bool, *string, "
              "interface{}); distinct = hash of the case."),
-    "floors": {"TestDiscardOverflowDefault/discard_overflow:given_by_placeholder_false": 0.08,
+    "floors": {
+        "TestPlaceholders/property_file_crlf": 0.09, "TestPlaceholders/property_file_crlf:resolves": 0.055,
+        "TestPlaceholders/property_file_crlf:resolves_non_string_field": 0.035, "TestPlaceholders/property_file_last_line_unterminated": 0.05,
+        "TestScenarioPlaceholders/property_file_crlf": 0.09, "TestScenarioPlaceholders/property_file_crlf:resolves": 0.07,
+        "TestScenarioPlaceholders/property_file_crlf:resolves_non_string_field": 0.025, "TestScenarioPlaceholders/property_file_last_line_unterminated": 0.055,"TestDiscardOverflowDefault/discard_overflow:given_by_placeholder_false": 0.08,
                
         "TestValid/given_depth_ge_2": 0.4, "TestValid/pools_gt_1": 0.1, "TestValid/list_composite": 0.2, "TestValid/null_valued_key": 0.1,
         "TestMutations/kind:unknown_key": 0.25, "TestMutations/kind:wrong_type": 0.088, "TestMutations/kind:constraint": 0.05,
